@@ -1863,6 +1863,12 @@ func genC20(r *rng, tier string, emit func(string)) {
 			}
 			return 50
 		}
+		if name == "renegrefuse" { // connections: 1 + iters/4
+			if thorough {
+				return 40
+			}
+			return 16
+		}
 		n := calls[name].quick
 		if thorough {
 			n = calls[name].thorough
